@@ -252,6 +252,28 @@ def s5b(ctx, rep, clause="S5"):
     require_guard(ctx, rep, clause, f, "Tuner._update_running_trials: scheduler.on_trial_complete | status == completed", nodes,
                   [(f"{sv} == Status.completed", lambda a: a[0] == "eq" and a[3] is True and {a[1], a[2]} == {sv, "Status.completed"})],
                   "the scheduler is told that a trial completed which has not (or is not told when one has)")
+    # "the scheduler paused it" overrides "the job completed": decided on the record of this call's decisions (the returned dict)
+    from ..engine import deref
+    rvn = [r.value.id for r in returns_of(f) if isinstance(r.value, ast.Name)]
+    cfg = cfg_of(f)
+    ov = [n for n in cfg.nodes if n.kind == "stmt" and isinstance(n.ast, ast.Assign) and U(n.ast.targets[0]) == sv and U(n.ast.value) == "Status.paused"
+          and any(l.kind == "for" and l.ast is loops[0] and n.stmt in list(stmts_in(l.ast.body)) for l in cfg.nodes)]
+    oko = len(ov) == 1 and len(set(rvn)) == 1
+    if oko:
+        from .common import dom_guard
+        src = None
+        for a in dom_guard(ctx, f, ov[0].id):
+            if a[0] == "eq" and a[3] is True and "Status.paused" in (a[1], a[2]):
+                other = a[2] if a[1] == "Status.paused" else a[1]
+                base = ast.parse(other, mode="eval").body
+                while isinstance(base, ast.Subscript):
+                    base = base.value
+                src = deref(f, base)
+        oko = src is not None and any(isinstance(y, ast.Name) and y.id == rvn[0] for y in ast.walk(src))
+    rep.put(oko, clause, "taint", "Tuner._update_running_trials: 'paused' overrides 'completed' | the scheduler paused the trial in this call", f,
+            ov[0].ast if ov else None, "", "the override is decided on another record than the decisions taken in this call (the backend's status map never "
+            "says 'paused' for a job that just ended): a trial paused at its final report counts as completed - it can no longer be resumed and the "
+            "completed / finished counters run ahead")
     g = P.method("Tuner", "_schedule_new_task")
     sugg = [U(t.targets[0]) for t in walk_shallow(g.node) if isinstance(t, ast.Assign) and isinstance(t.value, ast.Call) and fn_name(t.value) == "suggest"]
     if len(sugg) != 1:
